@@ -254,8 +254,13 @@ def gen_cases(ctx):
         add(None, 2, 'qa', True, True, False, custom='c2d22')
         add(None, 2, 'unit', True, True, False, custom='c2d23')
         add(None, 1, 'line', True, True, True, custom='c1d22')
+        tied = rng.sample(['c3d13', 'c3d31', 'c3d23', 'c3d32'], 2)     # two of the four are also tied to the Coq model
         for nm in ('c3d13', 'c3d31', 'c3d23', 'c3d32'):
-            add(None, 3, rng.choice(['unit', 'twisted']), True, True, False, custom=nm)
+            if nm in tied:
+                add(None, 3, rng.choice(['unit', 'twisted']), True, True, False, custom=nm)
+            else:
+                add(None, 3, rng.choice(['unit', 'twisted']), False, True, False, custom=nm,
+                    kvs=[[rng.choice([1, 2]), rng.randint(1, 2), 1] for _ in range(3)])
         add(None, 2, 'qa', True, True, False, custom=rng.choice(['c2d12', 'c2d21']))
         # larger cases: property predicate on the implementation + thread counts only
         add('stiff', 2, 'qa', False, False, True, bbox=True)
